@@ -220,6 +220,14 @@ NP_TD_UNITS = [('us', 1), ('ms', 10 ** 3), ('s', 10 ** 6), ('m', 60 * 10 ** 6), 
 def np_td(us):
     """the np.timedelta64 of `us` microseconds in the coarsest unit that holds it exactly"""
     unit, k = [(u, k) for u, k in NP_TD_UNITS if us % k == 0][-1]
+    # ... or, on two calls in five, in microseconds / NANOseconds: `.item()` of an ns duration is a plain int, not a timedelta
+    # (seeded C10-w1: drange converting the bump with bump.item() walked such a bump as a count of days)
+    import zlib
+    how = zlib.crc32(str(us).encode()) % 5
+    if how == 1:
+        return np.timedelta64(us, 'us')
+    if how == 2 and abs(us) < 2 ** 50:
+        return np.timedelta64(us * 1000, 'ns')
     return np.timedelta64(us // k, unit)
 
 
